@@ -22,6 +22,8 @@ BUDGET = {"C11": {"quick": 10000, "thorough": 250000}}
 # located faults of the built-in CSV configuration (library-selection and plug-in cells belong to C12 only)
 CELLS = [c for c in mf.MATRIX12 if not c.get("plugin") and not c.get("config") and c["kind"] != "unselected-library"]
 
+C11_LIBS = ("mpilot.libraries.eems.basic", "mpilot.libraries.eems.csv", "mpilot.libraries.eems.fuzzy", "mpsim_c11lib")
+
 EXEC_FAULTS = ("exec-direction", "exec-weights", "exec-thresholds", "exec-k", "exec-dupraw", "exec-lengths")
 
 
@@ -100,8 +102,33 @@ def _gen_doc(rng, tier, want_fault=None):
         fault["dup_pos"] = rng.randint(0, n + 1)
     if fault and fault["kind"] == "extra-param":
         fault["pos"] = rng.randint(0, 6)
-    return {"kind": "model", "model": model, "order": order, "argseed": rng.randrange(1 << 20), "layout": lay,
-            "fault": fault}
+    doc = {"kind": "model", "model": model, "order": order, "argseed": rng.randrange(1 << 20), "layout": lay,
+           "fault": fault}
+    r = rng.random()
+    if r < 0.06:
+        # plug-in producer whose finished value does not match its declared kind: noticed when a later consumer is cleaned
+        data = [c["name"] for c in model["cmds"] if c["cmd"] not in ("EEMSWrite", "PrintVars")]
+        extra = [{"name": "bd", "cmd": "BadData", "args": {}},
+                 {"name": "pvx", "cmd": "PrintVars", "args": {"InFieldNames": ["bd"]}},
+                 {"name": "cz", "cmd": "Copy", "args": {"InFieldName": "bd"}}]
+        model["cmds"].extend(extra)
+        doc["order"] = list(range(len(model["cmds"])))
+        if rng.random() < 0.5:
+            rng.shuffle(doc["order"])
+        doc["fault"] = {"kind": "exec-baddata", "target": "cz", "cmd": "Copy", "param": "InFieldName"}
+        doc["libs"] = True
+    elif r < 0.12:
+        data = [c["name"] for c in model["cmds"] if c["cmd"] not in ("EEMSWrite", "PrintVars")]
+        model["cmds"].append({"name": "fl", "cmd": "ForeignLineno", "args": {"InFieldName": rng.choice(data)}})
+        doc["order"] = list(range(len(model["cmds"])))
+        rng.shuffle(doc["order"])
+        doc["fault"] = {"kind": "exec-foreign-lineno", "target": "fl", "cmd": "ForeignLineno"}
+        doc["libs"] = True
+    elif fault and fault["kind"] in ("unknown-command", "missing-param", "duplicate-result") and rng.random() < 0.35:
+        # the offending command is written in EEMS 2.0 form (no result name; NewFieldName gives it); files in that
+        # dialect cannot carry OutFileName arguments, so the sinks are left out
+        doc["v2_target"] = True
+    return doc
 
 
 def _exec_fault(rng, model):
@@ -209,10 +236,24 @@ def doc_text(doc):
     fault = doc.get("fault")
     info = {}
     if fault:
-        if fault["kind"].startswith("exec-"):
+        if fault["kind"] in ("exec-baddata", "exec-foreign-lineno"):
+            node = next((n for n in nodes if n["name"] == fault["target"]), None)
+            info = {"node": node, "line_of": ("arg:InFieldName" if fault["kind"] == "exec-baddata" else "exec")} \
+                if node is not None else {"inapplicable": True}
+        elif fault["kind"].startswith("exec-"):
             info = apply_exec_fault(nodes, fault)
         else:
             info = mf.apply_fault(nodes, fault)
+    if doc.get("v2_target") and info.get("node") is not None:
+        from ..refmodel.declarations import V2_NAMES
+        nodes[:] = [n for n in nodes if not any(a[0] == "OutFileName" for a in n["args"])]
+        for n in nodes:
+            if n is info["node"] or (fault["kind"] == "duplicate-result" and n["name"] == fault["target"]):
+                n["args"] = [a for a in n["args"] if a[0] != "NewFieldName"] + [["NewFieldName", n["name"]]]
+                n["result"] = None
+                n["cmd"] = V2_NAMES.get(n["cmd"], n["cmd"])
+        if info["node"] not in nodes:
+            info = {"inapplicable": True}
     text, ledger = render(nodes, doc.get("layout") or PLAIN)
     return text, ledger, nodes, info
 
@@ -384,7 +425,10 @@ def _load(sc, route, doc, text, ledger, nodes, info, log, res, Program, MPilotEr
     with fs, StdCapture(log) as cap:
         try:
             if route == "LOAD":
-                program = Program.from_source(text, working_dir=mf.WORK)
+                if doc.get("libs"):
+                    program = Program.from_source(text, libraries=C11_LIBS, working_dir=mf.WORK)
+                else:
+                    program = Program.from_source(text, working_dir=mf.WORK)
                 if fault and fault.get("param") == "Metadata" and fault["kind"] == "wrong-kind" and \
                         sum(map(ord, fault["target"])) % 2 == 0:
                     # the client reads the metadata of the command before (instead of) running the program
@@ -393,7 +437,8 @@ def _load(sc, route, doc, text, ledger, nodes, info, log, res, Program, MPilotEr
                 program.run()
             else:
                 from mpilot.cli.mpilot import main
-                main.main(args=["eems-csv", mf.MODEL_PATH], standalone_mode=False)
+                main.main(args=["eems-csv", mf.MODEL_PATH] + (["-l", "mpsim_c11lib"] if doc.get("libs") else []),
+                          standalone_mode=False)
         except SimAbort:
             raise
         except SystemExit as e:
@@ -410,6 +455,8 @@ def _load(sc, route, doc, text, ledger, nodes, info, log, res, Program, MPilotEr
         return
     lines, none_ok, desc = al
     res.probe("located fault: " + label)
+    if doc.get("v2_target"):
+        res.probe("offending command written in EEMS 2.0 form")
     if any(len(a["arglist"]) and a["arglist"][0]["line"] != a["line"] for a in ledger):
         res.probe("arguments on other lines than their command")
     if route == "LOAD":
